@@ -172,10 +172,14 @@ func (s *streamHTTP) readMsg(c Codec, b []byte) (int, []byte, error) {
 		}
 		b = append(b, s.rbuf...)
 		b, n, err := codec.ReadNext(b, s.r, s.opts.maxReceiveMessageSize)
-		if err == io.EOF {
-			s.rEOF, err = true, nil
-		}
 		s.rbuf = append(s.rbuf[:0], b[n:]...)
+		if err == io.EOF {
+			s.rEOF = true
+			if n == 0 {
+				return count, nil, io.EOF // clean end of stream, no message
+			}
+			err = nil
+		}
 		return count, b[:n], err
 
 	}
